@@ -32,13 +32,15 @@ Definition py_from_pred {A} (index : nat) (l : list A) : list A :=
 
 Section Steps.
 Variables (x cx : str).            (* target xpath, context xpath *)
-Fixpoint steps_loop (probe cparts xparts rem_parts : list str) (index : nat) (items : list str) (acc : nat * list str) : nat * list str :=
+(* aligned: the target's xpath starts with context_parent + "/" (fix b68def5) *)
+Fixpoint steps_loop (aligned : bool) (probe cparts xparts rem_parts : list str) (index : nat) (items : list str) (acc : nat * list str) : nat * list str :=
   match items with
   | [] => acc
   | item :: rest =>
+      if negb aligned then (length (skipn index cparts), skipn index xparts) else
       match nth_error probe index with
       | None => (length (py_from_pred index cparts), py_from_pred index xparts)          (* IndexError arm *)
-      | Some v => if seqb v item then steps_loop probe cparts xparts rem_parts (S index) rest (fst acc, skipn (index + 2) rem_parts)
+      | Some v => if seqb v item then steps_loop aligned probe cparts xparts rem_parts (S index) rest (fst acc, skipn (index + 2) rem_parts)
                   else (length (skipn index cparts), skipn index xparts)
       end
   end.
@@ -51,7 +53,7 @@ Definition get_steps_and_target_xpath (cp xp : str) (include_parent : bool) : na
       let xps := skipn (si - 1) (split_sl x) in
       (join_sl xps, skipn (si - 1) (split_sl cx), xps) in
   let probe := split_sl (skipn (length cp + 1) x) in
-  let '(steps, parts) := steps_loop probe cparts xparts (split_sl remainder) 0 (removelast cparts) (1, []) in
+  let '(steps, parts) := steps_loop (starts_with (cp ++ [SL]) x) probe cparts xparts (split_sl remainder) 0 (removelast cparts) (1, []) in
   (steps, match parts with [] => remainder | _ => SL :: join_sl parts end).
 End Steps.
 
